@@ -321,7 +321,7 @@ class Gen:
         for _ in range(50):
             k = r.random()
             d = r.choice(userdirs if r.random() < 0.93 else dirs)
-            if k < 0.012:
+            if k < 0.006:
                 # a request that must be refused: mkdir / symlink / write of a name that exists (Dir!RefusedExists)
                 if not ents: continue
                 e = r.choice(ents)
